@@ -9,7 +9,7 @@ use tower_resilience_retry::{AimdBudget, ExponentialBackoff, ExponentialRandomBa
 
 type Svc = <RetryLayer<Req, IErr> as Layer<Inner>>::Service;
 pub struct RetryAd {
-    svc: Option<Svc>,
+    svc: Option<Handles<Svc>>,
 }
 impl RetryAd {
     pub fn new() -> Self {
@@ -24,7 +24,7 @@ impl Adapter for RetryAd {
         let bo = *rng.pick(&["fixed", "exp", "exp", "rand"]);
         let aimd = rng.pct(30);
         let bmax = 2 + rng.below(3) as i64;
-        json!({"max": rng.below(5), "perReq": if rng.pct(30) { 1 } else { 0 }, "pred": *rng.pick(&["all", "noe2"]), "bo": bo,
+        json!({"hm": rng.below(3), "max": rng.below(5), "perReq": if rng.pct(30) { 1 } else { 0 }, "pred": *rng.pick(&["all", "noe2"]), "bo": bo,
                "b0": if bo == "rand" { 2 + 2 * rng.below(2) } else { 1 + rng.below(3) }, "cap": 4 + rng.below(5),
                "budget": if aimd { bmax } else { *rng.pick(&[-1i64, -1, 0, 1, 2, 3]) }, "bmax": if aimd { bmax } else { 3 },
                "btype": if aimd { "aimd" } else { "tb" }, "bmin": 1, "cost": 1 + rng.below(2), "amount": 1 + rng.below(2), "fnum": *rng.pick(&[0u64, 2, 3, 4])})
@@ -57,7 +57,7 @@ impl Adapter for RetryAd {
             b = b.budget(x.clone());
             bud = Some(x);
         }
-        self.svc = Some(b.build().layer(Inner::new(&sim.w)));
+        self.svc = Some(Handles::new(b.build().layer(Inner::new(&sim.w)), cfg["hm"].as_u64().unwrap_or(0)));
         if let Some(x) = bud {
             sim.obs = Some(Box::new(move || {
                 let mut m = Obj::new();
@@ -67,11 +67,12 @@ impl Adapter for RetryAd {
         }
     }
     fn mk(&mut self, req: &Req) -> CallFut {
-        let mut s = self.svc.as_ref().unwrap().clone();
-        let w = futures::task::noop_waker();
-        let mut cx = std::task::Context::from_waker(&w);
-        let _ = s.poll_ready(&mut cx);
-        let f = s.call(req.clone());
+        let f = self.svc.as_mut().unwrap().with(|s| {
+            let w = futures::task::noop_waker();
+            let mut cx = std::task::Context::from_waker(&w);
+            let _ = s.poll_ready(&mut cx);
+            s.call(req.clone())
+        });
         Box::pin(async move {
             match f.await {
                 Ok(r) => Out::Ok { val: r.serial, req: r.req },
